@@ -290,3 +290,170 @@ pub fn run_spec_probes(rep: &mut Report) {
         }
     }
 }
+
+/// C04: literal prefixes. Every literal of length 2..4 over a two-letter alphabet (ASCII, and
+/// two-byte letters), alone and as the shared prefix of an alternation, on every haystack over the same
+/// alphabet up to length 6 from every offset: the literal-prefix (memmem / byte-sequence) search must
+/// not skip an occurrence that overlaps a partial one.
+pub fn literal_scope(rep: &mut Report, rng: &mut Rng, thorough: bool) {
+    for alpha in [["a", "b"], ["\u{e9}", "\u{e8}"], ["a", "\u{e9}"]] {
+        let lits: Vec<String> = short_strings(&alpha, 4).into_iter().filter(|s| s.chars().count() >= 2).collect();
+        let hays = short_strings(&alpha, 6);
+        for lit in &lits {
+            let x = alpha[0];
+            let y = alpha[1];
+            for pat in [lit.clone(), format!("(?:{}{}|{}{})", lit, x, lit, y), format!("{}+", lit), format!("({}){}?", lit, y)] {
+                if rep.saturated() {
+                    return;
+                }
+                if !thorough && !rng.chance(1, 2) {
+                    continue;
+                }
+                let Ok(Ok(re)) = guarded(|| compile(&pat, "", false)) else { continue };
+                let mut arb = re.clone();
+                regress::verif::set_start_pred_arbitrary(&mut arb);
+                let pred = regress::verif::dump_program(&re).lines().nth(1).unwrap_or("").split(' ').nth(1).unwrap_or("").to_string();
+                rep.count(&format!("literalscope:startpred:{}", pred));
+                for h in &hays {
+                    for start in boundaries(h) {
+                        let bt = run_exec(&re, Exec::Bt, h, start, 64);
+                        let a = run_exec(&arb, Exec::Bt, h, start, 64);
+                        if crate::ops_engine::differ(&bt.text, &a.text) {
+                            rep.violation(
+                                "impl-vs-impl:C04",
+                                format!("with prefilter ({}) [{}] vs Arbitrary [{}]", pred, bt.text, a.text),
+                                format!("/{}/ on {:?} from {}", pat, h, start),
+                            );
+                        }
+                    }
+                }
+                rep.case(&format!("/{}/ literal scope", pat), true);
+            }
+        }
+    }
+}
+
+/// C01: case-insensitive back-references over characters whose case partners have other encoded
+/// lengths (ſ/s, K/k, ẞ/ß, İ/i …): `(a)\1`, anchored, followed by text, and read backwards inside a
+/// look-behind, on every pair of partners, bare and embedded, under i / iu / iv; checked against the
+/// ES specification model.
+pub fn backref_scope(rep: &mut Report) {
+    let classes: &[&[u32]] = &[
+        &['s' as u32, 'S' as u32, 0x17F],
+        &['k' as u32, 'K' as u32, 0x212A],
+        &[0xDF, 0x1E9E],
+        &['i' as u32, 'I' as u32, 0x130, 0x131],
+        &[0x1C4, 0x1C5, 0x1C6],
+        &[0x3C3, 0x3C2, 0x3A3],
+        &[0x1FBE, 0x3B9, 0x399, 0x345],
+        &[0x10400, 0x10428],
+        &[0xE9, 0xC9],
+        &[0xFF, 0x178],
+        &[0xB5, 0x39C, 0x3BC],
+    ];
+    for class in classes {
+        for &a in class.iter() {
+            let g = || Node::Group(1, None, Box::new(Node::Char(a)));
+            let shapes: Vec<Node> = vec![
+                Node::Cat(vec![g(), Node::Bref(1)]),
+                Node::Cat(vec![Node::Bol, g(), Node::Bref(1), Node::Eol]),
+                Node::Cat(vec![g(), Node::Bref(1), ch('x')]),
+                Node::Cat(vec![Node::Look { ahead: false, neg: false, body: Box::new(Node::Cat(vec![Node::Bref(1), g()])) }, Node::Eol]),
+                Node::Alt(vec![Node::Cat(vec![g(), Node::Bref(1)]), Node::Dot]),
+            ];
+            for flags in [Flags { i: true, ..Flags::default() }, Flags { i: true, u: true, ..Flags::default() }, Flags { i: true, v: true, ..Flags::default() }] {
+                for node in shapes.iter() {
+                    let pat = ast::pattern_string(node, flags);
+                    let fs = flags.to_string();
+                    let Ok(Ok(re)) = guarded(|| compile(&pat, &fs, false)) else {
+                        rep.violation("impl-vs-spec:C08", format!("valid pattern rejected: /{}/{}", pat, fs), format!("/{}/{}", pat, fs));
+                        continue;
+                    };
+                    for &x in class.iter() {
+                        for &y in class.iter() {
+                            for (pre, post) in [("", ""), ("x", ""), ("", "x"), ("\u{e9}", "y")] {
+                                let mut cps: Vec<u32> = pre.chars().map(|c| c as u32).collect();
+                                cps.push(x);
+                                cps.push(y);
+                                cps.extend(post.chars().map(|c| c as u32));
+                                let h = ast::to_string(&cps);
+                                let bt = run_exec(&re, Exec::Bt, &h, 0, 1);
+                                let first = bt.text.split(' ').next().unwrap_or("").to_string();
+                                rep.case(&format!("/{}/{} on {:?}", pat, fs, h), !first.is_empty());
+                                rep.count("backref-scope");
+                                rep.tie(
+                                    format!("esfind {} {} {} 0", flags.to_token(), ast::ast_string(node), ast::cps_hex(&cps)),
+                                    if first.is_empty() { "none".into() } else { format!("m {}", first) },
+                                );
+                            }
+                        }
+                    }
+                }
+            }
+        }
+    }
+}
+
+/// C02 / C03: small classes over the code points at which the encodings change length (and the
+/// byte values they share: 0x80 is a continuation byte of U+00C0, U+0100, U+0800), as `[S]`, `[S]+`,
+/// `[^S]`, `x[S]`, on every such character alone and after an `a`: optimized vs unoptimized, and
+/// backtracker vs PikeVM (the optimizer lowers small sets to byte sets, the emitter to bitmaps).
+pub fn class_boundary_scope(rep: &mut Report, rng: &mut Rng, thorough: bool) {
+    let b: [u32; 10] = [0x61, 0x7F, 0x80, 0xFF, 0x100, 0x7FF, 0x800, 0xFFFF, 0x10000, 0x10FFFF];
+    let extra: [u32; 6] = [0xC0, 0xC2, 0x4080, 0x0, 0x17F, 0x7E];
+    let mut sets: Vec<Vec<u32>> = vec![];
+    for i in 0..b.len() {
+        sets.push(vec![b[i]]);
+        for j in i + 1..b.len() {
+            sets.push(vec![b[i], b[j]]);
+            for k in j + 1..b.len() {
+                sets.push(vec![b[i], b[j], b[k]]);
+            }
+        }
+    }
+    let mut hays: Vec<String> = vec![];
+    for c in b.iter().chain(extra.iter()) {
+        if let Some(ch) = char::from_u32(*c) {
+            hays.push(ch.to_string());
+            hays.push(format!("a{}", ch));
+            hays.push(format!("{}{}", ch, ch));
+        }
+    }
+    for set in sets.iter() {
+        for shape in 0..4 {
+            for fs in ["", "i", "u"] {
+                if rep.saturated() {
+                    return;
+                }
+                if !thorough && !rng.chance(1, 3) {
+                    continue;
+                }
+                let items: Vec<ClassItem> = set.iter().map(|c| ClassItem::C(*c)).collect();
+                let cls = |neg: bool| Node::Class(neg, items.clone());
+                let node = match shape {
+                    0 => cls(false),
+                    1 => Node::Quant { min: 1, max: None, greedy: true, body: Box::new(cls(false)) },
+                    2 => cls(true),
+                    _ => Node::Cat(vec![ch('a'), cls(false)]),
+                };
+                let flags = Flags { i: fs == "i", u: fs == "u", ..Flags::default() };
+                let pat = ast::pattern_string(&node, flags);
+                let (Ok(Ok(opt)), Ok(Ok(noopt))) = (guarded(|| compile(&pat, fs, false)), guarded(|| compile(&pat, fs, true))) else { continue };
+                rep.count("classboundary:patterns");
+                for h in &hays {
+                    let label = format!("/{}/{} on {:?} from 0", pat, fs, h);
+                    let bt = run_exec(&opt, Exec::Bt, h, 0, 64);
+                    let pk = run_exec(&opt, Exec::Pk, h, 0, 64);
+                    let btn = run_exec(&noopt, Exec::Bt, h, 0, 64);
+                    rep.case(&label, !bt.text.is_empty());
+                    if crate::ops_engine::differ(&bt.text, &pk.text) {
+                        rep.violation("impl-vs-impl:C02", format!("backtracking [{}] vs PikeVM [{}]", bt.text, pk.text), label.clone());
+                    }
+                    if crate::ops_engine::differ(&bt.text, &btn.text) {
+                        rep.violation("impl-vs-impl:C03", format!("optimized [{}] vs no_opt [{}]", bt.text, btn.text), label.clone());
+                    }
+                }
+            }
+        }
+    }
+}
